@@ -687,6 +687,10 @@ def native(seed=0):
             ok = all(adj[tri[s], tri[(s + 1) % 3]] == t + 1 for t, tri in enumerate(elements) for s in range(3)) and np.count_nonzero(adj) == 3 * len(elements)
             if not ok:
                 bad.append(dict(what="make_adj_directed_tri_indices: entry of a directed side is not triangle index + 1", triangles=len(elements)))
+            polys = util.get_voronoi_polygon_indices(elements, len(sites))
+            n += 1
+            if len(polys) != len(sites) or any(sorted(int(v) for v in pg) != sorted(t for t, tri in enumerate(elements) if i in tri) for i, pg in enumerate(polys)):
+                bad.append(dict(what="get_voronoi_polygon_indices: the polygon of a site is not the list of the triangles that contain it", triangles=len(elements)))
             dualv = util.generate_voronoi_vertices(sites, elements)
             ed = np.array(want_edges)
             centers = sites[ed].mean(axis=1)
@@ -1341,4 +1345,51 @@ def run_voronoi_cell_areas(mutate=None, prefixes=("C07.",)):
         o_, n_ = explore(lambda case=case: body(case), safety=False, max_paths=20000)
         obls += o_
         n += n_
+    return dict(obls=obls, paths=n, sources=[L.info()], consistent=sym.consistent())
+
+
+def run_voronoi_polygon_indices(mutate=None):
+    """get_voronoi_polygon_indices: the polygon of site i is, entry by entry, (value stored in row i of the directed adjacency) - 1, one polygon per site
+    in site order, for the adjacency of THESE elements and this number of sites.  With the contract of make_adj_directed_tri_indices (value t + 1 at
+    (el[t, s], el[t, s + 1 mod 3]): every triangle that contains site i has exactly one directed side starting at i) the polygon of site i is the list of
+    the triangles that contain site i.  The row list has a concrete length (3 sites; the function maps over the rows independently), every row has a
+    symbolic length and symbolic entries."""
+    _patch()
+    calls = {}
+    mut = [(o, n) for (m, o, n) in (mutate or []) if m == U_]
+    rb = {"np": _np_model(calls)}
+    rb.update(BUILTINS)
+    L = instrument.load(U_, rebind=rb, mutate=mut, vc=vcm.VC())
+
+    def body():
+        T, N = SI(z3.Int("T")), SI(z3.Int("N"))
+        assume(T >= 1, N >= 3)
+        el = SymArray.input("elements", (T, 3), "i")
+        rows = [SymArray.input(f"row{i}_stored_values", (SI(z3.Int(f"len_row{i}")),), "i") for i in range(3)]
+        for r_ in rows:
+            assume(r_.shape[0] >= 0)
+        seen = []
+
+        class Lil:
+            data = rows
+
+        class Adj:
+            def tolil(self):
+                seen.append("tolil")
+                return Lil()
+
+        def mk(elements, num_sites):
+            seen.append((elements, num_sites))
+            return Adj()
+        L.ns["make_adj_directed_tri_indices"] = mk
+        res = L["get_voronoi_polygon_indices"](el, N)
+        check("C07.polygon_indices.adjacency_of_these_elements_and_this_number_of_sites", z3.BoolVal(len(seen) >= 1 and seen[0][0] is el and seen[0][1] is N))
+        check("C07.polygon_indices.one_polygon_per_site_in_site_order", z3.BoolVal(isinstance(res, list) and len(res) == len(rows)))
+        k = SI(sym.FreshInt("k"))
+        for i, (got, row) in enumerate(zip(res if isinstance(res, list) else [], rows)):
+            ok = isinstance(got, SymArray) and got.ndim == 1
+            check(f"C07.polygon_indices.as_many_entries_as_stored_values[site {i}]", sym.eq(got.shape[0], row.shape[0]) if ok else z3.BoolVal(False))
+            check(f"C07.polygon_indices.entry_is_the_stored_value_minus_one_in_stored_order[site {i}]",
+                  z3.Implies(z3.And(k.e >= 0, k.e < row.shape[0].e), SI.lift(got.at(k)).e == row.at(k).e - 1) if ok else z3.BoolVal(False))
+    obls, n = explore(body)
     return dict(obls=obls, paths=n, sources=[L.info()], consistent=sym.consistent())
